@@ -226,15 +226,32 @@ def help_dec(chk, program, rule='HELP-DEC'):
         if n >= 2:
             exp.append(('return', (na_cond,), NONE))
             pre = (sym.mk_not(na_cond),)
-        lo = cn(('cmp', '<', SC, C(rmin))); hi = cn(('cmp', '>', SC, C(rmax)))
-        exp.append(('raise', pre + (lo,), 'ValueError'))
-        exp.append(('raise', pre + (sym.mk_not(lo), hi), 'ValueError'))
-        exp.append(('return', pre + (sym.mk_not(lo), sym.mk_not(hi)), SC))
         got = [(k, gs, (_exc_name(v) if k == 'raise' else v)) for (k, gs, v, _) in r2 if k in ('return', 'raise')]
-        if res == 1:
-            # X*1 may have been left as X*1 (not folded: X symbolic); both spellings are the same value
-            pass
-        ok = got == exp
+        # the two range rows may carry a float-rounding allowance; they are parsed, validated and then evaluated at the range ends
+        shape_ok = len(got) == len(pre) + 3 and (not pre or got[0] == ('return', (na_cond,), NONE))
+        lowp = highp = None
+        if shape_ok:
+            rows3 = got[len(pre):]
+            g_lo = [x for x in rows3[0][1] if x not in pre]
+            g_hi = [x for x in rows3[1][1] if x not in pre]
+            g_ret = [x for x in rows3[2][1] if x not in pre]
+            def as_term(lst):
+                return lst[0] if len(lst) == 1 else ('bool', 'and', tuple(lst))
+            if rows3[0][0] == 'raise' and rows3[1][0] == 'raise' and rows3[0][2] == 'ValueError' and rows3[1][2] == 'ValueError' and 1 <= len(g_lo) <= 2 and 2 <= len(g_hi) <= 3 \
+                    and rows3[2][0] == 'return' and rows3[2][2] == SC:
+                low_t = as_term(g_lo)
+                high_t = as_term(g_hi[1:])
+                lowp = _bound_pred(low_t, SC, 'low')
+                highp = _bound_pred(high_t, SC, 'high')
+                shape_ok = lowp is not None and highp is not None and g_hi[0] == sym.mk_not(low_t) and g_ret == [sym.mk_not(low_t), sym.mk_not(high_t)]
+            else:
+                shape_ok = False
+        exp = [('return', (na_cond,), NONE)] if pre else []
+        exp += [('raise', 'scaled < RangeMin', 'ValueError'), ('raise', 'scaled > RangeMax', 'ValueError'), ('return', 'otherwise', 'scaled')]
+        ok = bool(shape_ok)
+        if ok:
+            # thresholds: rejecting exactly the grid points outside [RangeMin, RangeMax]
+            ok = lowp['bound_ok'](rmin, res) and highp['bound_ok'](rmax, res)
         if not ok and n < 2:
             # a 1-bit field has no not-available code in the database's convention
             got_na = [g for g in got if g[0] == 'return' and g[2] == NONE]
@@ -244,8 +261,28 @@ def help_dec(chk, program, rule='HELP-DEC'):
                               detail=users_s)
                 continue
         chk.check(ok, rule, inst, file=UT, line=line, func='decode_number',
-                  expected=[_row_s(r) for r in exp], found=[_row_s(r) for r in got],
+                  expected=[str(r) for r in exp], found=[_row_s(r) for r in got],
                   detail=('' if ok else 'residual decision list differs from the database rows; ') + users_s)
+        if ok:
+            # RANGE-EDGE: the range ends themselves are accepted, the next grid point outside is rejected (constant evaluation in float arithmetic)
+            kmin, kmax = round(rmin / res), round(rmax / res)
+            on_grid_min = abs(kmin * res - rmin) <= abs(res) * 1e-6
+            on_grid_max = abs(kmax * res - rmax) <= abs(res) * 1e-6
+            lo_raw = -(1 << (n - 1)) if signed else 0
+            hi_raw = (1 << (n - 1)) - 1 if signed else (1 << n) - 1
+            edge = []
+            if on_grid_min and lo_raw <= kmin <= hi_raw and lowp['rejects'](kmin * res):
+                edge.append(f"raw {kmin} -> {kmin * res!r} is rejected although RangeMin is {rmin}")
+            if on_grid_max and lo_raw <= kmax <= hi_raw and highp['rejects'](kmax * res):
+                edge.append(f"raw {kmax} -> {kmax * res!r} is rejected although RangeMax is {rmax}")
+            distinct = lambda x, b: abs(x - b) > max(abs(b), abs(res)) * 1e-9      # one step is far above double-precision noise
+            if on_grid_min and lo_raw <= kmin - 1 and distinct((kmin - 1) * res, rmin) and not lowp['rejects']((kmin - 1) * res):
+                edge.append(f"raw {kmin - 1} (one step below RangeMin) is accepted")
+            if on_grid_max and kmax + 1 <= hi_raw and kmax + 1 != na and distinct((kmax + 1) * res, rmax) and not highp['rejects']((kmax + 1) * res):
+                edge.append(f"raw {kmax + 1} (one step above RangeMax) is accepted")
+            chk.check(not edge, 'RANGE-EDGE', inst, file=UT, line=line, func='decode_number',
+                      expected='the raw values at RangeMin and RangeMax decode; one step beyond either end raises', found=edge or 'ok',
+                      detail=('' if not edge else 'float product raw*Resolution lands just outside the bound, so a payload whose field sits exactly at the end of its database range fails to decode; ') + users_s)
         # NA-RANGE: the database says the top code is a valid value
         if ok and in_range and n >= 2:
             for (d, f) in users:
@@ -267,6 +304,40 @@ def help_dec(chk, program, rule='HELP-DEC'):
         chk.check(got == [('return', (), R)], rule, f"decode_int@bits={n}", file=UT, line=rows[0][3] if rows else 0, func='decode_int',
                   expected=f"(data >> BitOffset) & {(1 << n) - 1}", found=[show(v) for (_, _, v, _) in rows])
     chk.unit('decode_int_residuals', len(lens))
+
+def _bound_pred(t, SC, side):
+    """recognise the raise-when predicate of a range end.  plain: SC < T / T < SC ; with a float-rounding allowance:
+    (SC < B) and not isclose(SC, B, rel_tol=t [, abs_tol=a]).  -> dict(bound_ok(db_bound, res) -> bool, rejects(x) -> bool)"""
+    import math
+    def plain(x):
+        if x[0] == 'cmp' and x[1] in ('<', '<='):
+            if side == 'low' and x[2] == SC and sym.is_const(x[3]):
+                return x[3][1], x[1]
+            if side == 'high' and x[3] == SC and sym.is_const(x[2]):
+                return x[2][1], x[1]
+        return None
+    p = plain(t)
+    if p is not None:
+        T, op = p
+        if op != '<':
+            # non-strict: the bound itself would be rejected
+            return {'bound_ok': lambda b, r: False, 'rejects': (lambda x: x <= T) if side == 'low' else (lambda x: x >= T)}
+        if side == 'low':
+            return {'bound_ok': lambda b, r: (b - abs(r) < T <= b) or T == b, 'rejects': lambda x: x < T}
+        return {'bound_ok': lambda b, r: (b <= T < b + abs(r)) or T == b, 'rejects': lambda x: x > T}
+    if t[0] == 'bool' and t[1] == 'and' and len(t[2]) == 2:
+        a, b = t[2]
+        pa = plain(a)
+        if pa is not None and pa[1] == '<' and b[0] == 'unop' and b[1] == 'not' and b[2][0] == 'call' and b[2][1] in (('attr', ('name', 'math'), 'isclose'), ('name', 'isclose')):
+            c = b[2]
+            args = c[2]; kw = dict(c[3])
+            B_ = pa[0]
+            if len(args) >= 2 and set(args[:2]) == {SC, C(B_)} and all(sym.is_const(v) for v in kw.values()):
+                rel = kw.get('rel_tol', C(1e-09))[1]; ab = kw.get('abs_tol', C(0.0))[1]
+                if side == 'low':
+                    return {'bound_ok': lambda b0, r: b0 == B_ and rel <= 1e-9 and ab <= abs(r) * 1e-3, 'rejects': lambda x: x < B_ and not math.isclose(x, B_, rel_tol=rel, abs_tol=ab)}
+                return {'bound_ok': lambda b0, r: b0 == B_ and rel <= 1e-9 and ab <= abs(r) * 1e-3, 'rejects': lambda x: x > B_ and not math.isclose(x, B_, rel_tol=rel, abs_tol=ab)}
+    return None
 
 def _row_s(r):
     k, gs, v = r
